@@ -135,6 +135,10 @@ class JEnv:
         MD = self.I.repo.get("asyncfix.message.MessageDirection")
         d = c.inp_int(name)
         c.assume(Or(Eq(d, IN), Eq(d, OUT)))
+        only = c.ghost.get("only_direction")
+        if only is not None:
+            # the task is run under a property that speaks about one direction only (shared_tasks.journal_tasks)
+            c.assume(Eq(d, only))
         return SEnum(MD, d.t), d
 
     # -- generic clauses ---------------------------------------------------------------------
